@@ -1,22 +1,22 @@
 INIT Init
 NEXT Next
 CONSTANTS
-  NChunks = 3
-  CS = 1
-  NGets = 4
-  Ranges <- AllRanges
+  NChunks = 1
+  CS = 2
+  NGets = 3
+  Ranges <- WholeChunkRanges
   Plays <- NoPlay
   Forces <- NoForce
-  MaxInv = 2
-  MaxTrim = 1
-  MaxFail = 1
+  MaxInv = 1
+  MaxTrim = 0
+  MaxFail = 0
   Age <- AllOld
   FixAwait = TRUE
   FixPublish = TRUE
   FixInvMax = FALSE
-  AnyTakesAwaiters = FALSE
+  AnyTakesAwaiters = TRUE
   SeqInv = TRUE
-  MaxOps = 20
+  MaxOps = 0
 VIEW View
-ACTION_CONSTRAINT Export
+INVARIANTS CexExport
 CHECK_DEADLOCK FALSE
